@@ -359,6 +359,13 @@ func (c *Channel) acceptUpdate(
 	// If subchannel is final, register settlement update at parent channel.
 	if c.IsSubChannel() && req.Base().State.IsFinal {
 		c.Parent().registerSubChannelSettlement(c.ID(), req.Base().State.Balances)
+		// If the update does not go through, the final state is discarded and
+		// no settlement may be accepted on its balances.
+		defer func() {
+			if err != nil {
+				c.Parent().subChannelWithdrawals.Release(c.ID())
+			}
+		}()
 	}
 
 	msgUpAcc := &ChannelUpdateAccMsg{
